@@ -76,6 +76,10 @@ func runE2(p *Program, sp *Spec, c *Collector) {
 		if len(roots) < sc.Floor {
 			c.Anchor(sc.Props, "E2: scope %s: %d root functions, floor is %d", sc.Name, len(roots), sc.Floor)
 		}
+		// function literals of the roots run as callbacks of library walkers (ast.Inspect, filepath.Walk …): roots as well
+		for i := 0; i < len(roots); i++ {
+			roots = append(roots, roots[i].AnonFuncs...)
+		}
 		for _, r := range roots {
 			an.rootKind = map[string]kindset{}
 			// callback parameter: non-nil context of the callback's rule
@@ -1776,6 +1780,10 @@ func (an *shapeAn) checkFieldOfLookup(sf *symFn, fa *ssa.FieldAddr, pc *Sym, cha
 	an.nOps++
 	m, k := sf.val(lk.X), sf.val(lk.Index)
 	construct := "mapderef:" + an.p.FuncKey(sf.fn) + " " + clip(m.String(), 80) + "[" + clip(k.String(), 80) + "]"
+	if an.presentOnEveryPath(sf, fa, m.String(), k.String()) {
+		an.ob("E2.nil-deref", construct, Discharged, "on every path the key was either tested (m[k] != nil) or just assigned a fresh record", an.p.InstrPos(fa), true)
+		return
+	}
 	bad := true
 	an.assignments(pc, []string{m.String()}, func(fs *factSet) bool {
 		if fs.has("present", m.String()+"|"+k.String()) || fs.has("nonnil", (&Sym{Op: "lookup", Kids: []*Sym{m, k}}).String()) {
@@ -1790,6 +1798,88 @@ func (an *shapeAn) checkFieldOfLookup(sf *symFn, fa *ssa.FieldAddr, pc *Sym, cha
 	} else {
 		an.ob("E2.nil-deref", construct, Discharged, "key presence / non-nil checked on the path", an.p.InstrPos(fa), true)
 	}
+}
+
+// presentOnEveryPath: forward must-analysis inside the function: on every path to `at`, m[k] was assigned the address of a fresh
+// record, or the branch taken established m[k] != nil (the "create on first use" idiom: if m[k] == nil { m[k] = &T{} }; m[k].F).
+func (an *shapeAn) presentOnEveryPath(sf *symFn, at ssa.Instruction, m, k string) bool {
+	fn := sf.fn
+	same := func(mv, kv ssa.Value) bool { return sf.val(mv).String() == m && sf.val(kv).String() == k }
+	fresh := func(v ssa.Value) bool {
+		switch x := v.(type) {
+		case *ssa.Alloc:
+			return true
+		case *ssa.MakeInterface:
+			_, ok := x.X.(*ssa.Alloc)
+			return ok
+		}
+		return false
+	}
+	gen := func(b *ssa.BasicBlock, upto ssa.Instruction) bool {
+		for _, in := range b.Instrs {
+			if in == upto {
+				return false
+			}
+			if mu, ok := in.(*ssa.MapUpdate); ok && same(mu.Map, mu.Key) && fresh(mu.Value) {
+				return true
+			}
+		}
+		return false
+	}
+	edge := func(p, b *ssa.BasicBlock) bool {
+		if len(p.Instrs) == 0 {
+			return false
+		}
+		iff, ok := p.Instrs[len(p.Instrs)-1].(*ssa.If)
+		if !ok || len(p.Succs) != 2 || p.Succs[0] == p.Succs[1] {
+			return false
+		}
+		bo, ok := iff.Cond.(*ssa.BinOp)
+		if !ok || (bo.Op != token.EQL && bo.Op != token.NEQ) {
+			return false
+		}
+		var lk *ssa.Lookup
+		if l, ok := bo.X.(*ssa.Lookup); ok && isNilConst(bo.Y) {
+			lk = l
+		} else if l, ok := bo.Y.(*ssa.Lookup); ok && isNilConst(bo.X) {
+			lk = l
+		}
+		if lk == nil || lk.CommaOk || !same(lk.X, lk.Index) {
+			return false
+		}
+		if bo.Op == token.NEQ {
+			return p.Succs[0] == b
+		}
+		return p.Succs[1] == b
+	}
+	in := map[*ssa.BasicBlock]bool{}
+	for _, b := range fn.Blocks {
+		in[b] = b.Index != 0 // optimistic start for a must-analysis, false at entry
+	}
+	for changed := true; changed; {
+		changed = false
+		for _, b := range fn.Blocks {
+			if b.Index == 0 {
+				continue
+			}
+			v := len(b.Preds) > 0
+			for _, p := range b.Preds {
+				if !(in[p] || gen(p, nil) || edge(p, b)) {
+					v = false
+				}
+			}
+			if v != in[b] {
+				in[b] = v
+				changed = true
+			}
+		}
+	}
+	return in[at.Block()] || gen(at.Block(), at)
+}
+
+func isNilConst(v ssa.Value) bool {
+	c, ok := v.(*ssa.Const)
+	return ok && c.Value == nil
 }
 
 var _ = token.NoPos
